@@ -1244,10 +1244,13 @@ class NestedSampler(BaseNestedSampler):
         self.live_points = None
 
         # Refine evidence estimate
-        self.update_state(force=True)
         self.state.finalise()
         # output the chain and evidence
+        # Must be set before updating the state since this can checkpoint the
+        # sampler and a sampler without live points that is not finalised
+        # would draw new live points when resumed.
         self.finalised = True
+        self.update_state(force=True)
 
     def nested_sampling_loop(self):
         """Main nested sampling loop.
